@@ -76,6 +76,9 @@ func genPools(r *Rng, tier string, stat func(string)) []string {
 	}
 	// the historical witness: A reads a compressed message to its end, B starts one, A reads again
 	out = append(out, "hist=open:0:1|open:1:1|msg:0:600|readall:0|msg:1:600|again:0|readall:1")
+	// writers: a message abandoned half-way on A, then B and A write; A is closed under its writer, B writes again
+	out = append(out, "hist=open:0:0|open:1:0|wmsg:0:600|wmsg:1:600|wpart:0:5000|wmsg:1:700|closenow:0|wmsg:1:800|open:0:1|wmsg:0:900|wmsg:1:900")
+	out = append(out, "hist=open:0:1|open:1:1|open:2:0|wmsg:0:600|wmsg:1:600|wmsg:2:600|wmsg:0:40000|wpart:1:600|wmsg:2:700|closenow:1|wmsg:0:700|wmsg:2:700")
 	out = append(out, "hist=open:0:0|open:1:0|msg:0:600|readall:0|msg:1:40000|read:1:64|again:0|again:0|readall:1|again:1")
 	return out
 }
@@ -116,6 +119,7 @@ type poolConn struct {
 	rd     io.Reader
 	nmsg   int
 	closed bool
+	wopen  bool // a Writer was left unfinished: further writes on this connection would block
 }
 
 func runPools(kv map[string]string) string {
@@ -132,7 +136,7 @@ func runPools(kv map[string]string) string {
 	flushTrace := func(c int) {
 		tr := websocket.VerifPoolTraceGet()
 		for _, e := range tr[mark:] {
-			if e.Kind != websocket.VerifKindFlateReader {
+			if e.Kind != websocket.VerifKindFlateReader && e.Kind != websocket.VerifKindFlateWriter {
 				continue
 			}
 			id, ok := objs[e.Obj]
@@ -143,7 +147,12 @@ func runPools(kv map[string]string) string {
 			if e.Obj == 0 {
 				id = 0 // limitReader.r is not a flate reader
 			}
-			ptr = append(ptr, fmt.Sprintf("%d:%d:%d", c, e.Ev, id))
+			if e.Kind == websocket.VerifKindFlateWriter {
+				// the write side of connection c is a holder of its own: virtual connection c+100
+				ptr = append(ptr, fmt.Sprintf("%d:%d:%d", c+100, e.Ev, id))
+			} else {
+				ptr = append(ptr, fmt.Sprintf("%d:%d:%d", c, e.Ev, id))
+			}
 		}
 		mark = len(tr)
 	}
@@ -226,6 +235,26 @@ func runPools(kv map[string]string) string {
 				b = buf[:n]
 			}
 			obs = append(obs, fmt.Sprintf("%d:%d:%v:%s", ci, len(b), ownBytes(ci, b), status(err)))
+		case "wmsg", "wpart":
+			if pc == nil || pc.closed || pc.wopen {
+				continue
+			}
+			n, _ := strconv.Atoi(f[2])
+			wctx, wcancel := context.WithTimeout(ctx, 5*time.Second)
+			if f[0] == "wmsg" {
+				err := pc.c.Write(wctx, websocket.MessageBinary, poolPayload(ci, 900+pc.nmsg, n))
+				obs = append(obs, fmt.Sprintf("%d:w:%s", ci, status(err)))
+			} else {
+				// a streamed message that is never finished: its flate.Writer stays with the connection until it is closed
+				w, err := pc.c.Writer(wctx, websocket.MessageBinary)
+				if err == nil {
+					_, err = w.Write(poolPayload(ci, 900+pc.nmsg, n))
+				}
+				obs = append(obs, fmt.Sprintf("%d:wp:%s", ci, status(err)))
+				pc.wopen = true
+			}
+			wcancel()
+			pc.nmsg++
 		case "closemid":
 			if pc == nil || pc.closed {
 				continue
